@@ -1,5 +1,5 @@
 (* C08 — the disk spool queue recovers consistently from a crash at any point. *)
-From CRNG Require Import Base.ListX Base.Bytes Base.Decimal Model.DiskQueue Proofs.DQBasics.
+From CRNG Require Import Base.ListX Base.Bytes Base.Decimal Model.DiskQueue Proofs.DQBasics Proofs.DQReader Proofs.DQFifo Proofs.DQCrash.
 
 (* whatever stale bytes a crash left in the metadata .tmp file (it is reopened without
    truncation), the next persisted metadata reads back exactly *)
@@ -15,3 +15,46 @@ Theorem C08_frame_roundtrip :
     skipn (length m) (skipn 4 (frame m ++ rest)) = rest.
 Proof. exact frame_roundtrip. Qed.
 Print Assumptions C08_frame_roundtrip.
+
+(* A crash at any file-system mutation.  For every history of puts, gets and sync ticks that stays within the
+   first segment (messages below 2^31 bytes; maxBytesPerFile and syncEvery arbitrary), every file-system state
+   the queue's I/O loop passed through — the model records one after each segment write, fsync, metadata temp
+   write and metadata rename: these are the crash points — is reopened by NewDiskQueue without panic, and the
+   reopened queue, drained completely, delivers a contiguous run E[sr .. sw) of the enqueued messages E, each
+   intact and in the original order; the run starts no later than the first message not yet handed to the
+   consumer (sr <= kfin <= number delivered at the end of the history; sr and sw are the consumed / written
+   counts of the last metadata rename contained in that state, so only the un-synced tail is missing and only
+   messages consumed since that sync are delivered again).
+   (States with several segments, and the bound on sr at the very moment of the crash, are covered by the
+   acceptor recover_ok that every run evaluates on the real recoveries.) *)
+Theorem C08_crash_at_any_point_first_segment :
+  forall c ops limit,
+    fits_nr c 0 ops = true -> (length (puts ops) <= limit)%nat ->
+    exists dfin kfin,
+      snd (dq_run c (dq_open c fs_empty []) ops) = Some dfin /\ (kfin <= length (puts ops))%nat /\
+      forall l f, In (l, f) (trace dfin) ->
+        exists sr sw d,
+          (sr <= sw)%nat /\ (sw <= length (puts ops))%nat /\ (sr <= kfin)%nat /\
+          dq_open c f [] = Some d /\
+          dq_drain c limit d = firstn (sw - sr) (skipn sr (puts ops)).
+Proof. exact crash_recovery. Qed.
+Print Assumptions C08_crash_at_any_point_first_segment.
+
+(* recovery from any single crashable state: what the metadata and the segment say is what comes out *)
+Theorem C08_recover :
+  forall c E f sr sw,
+    crashable E f sr sw -> (forall m, In m E -> N.of_nat (length m) < 2147483648) ->
+    N.of_nat (pos E (length E)) <= c_max c ->
+    exists d, dq_open c f [] = Some d /\ qinv c d (firstn (sw - sr) (skipn sr E)).
+Proof. exact recover. Qed.
+Print Assumptions C08_recover.
+
+Example C08_nonvacuous :
+  let c := {| c_max := 1000; c_syncevery := 2 |} in
+  let ops := [Put [97]; Put [98;98]; Get; SyncTick; Put [99]; Get] in
+  fits_nr c 0 ops = true /\
+  match snd (dq_run c (dq_open c fs_empty []) ops) with
+  | Some d => (6 <=? length (trace d))%nat = true
+  | None => False
+  end.
+Proof. vm_compute. auto. Qed.
